@@ -6,6 +6,7 @@ import (
 	"go/token"
 	"go/types"
 	"math"
+	"sort"
 
 	"golang.org/x/tools/go/ssa"
 )
@@ -278,6 +279,21 @@ func (f *FnVC) newRef(st *State) Term {
 	a := f.comp(st, "alloc", SInt)
 	r := f.SC.Define("ref", Term{fmt.Sprintf("(+ %s 1)", a.S), SRef})
 	st.Heap["alloc"] = r
+	// ghost fields of a fresh object start at their zero value
+	var gnames []string
+	for g := range f.E.GhostFields {
+		gnames = append(gnames, g)
+	}
+	sort.Strings(gnames)
+	for _, g := range gnames {
+		t, err := f.specType(&SEnv{f: f}, f.E.GhostFields[g])
+		if err != nil {
+			continue
+		}
+		s := f.TE.Sort(t)
+		h := f.comp(st, "G$"+g, arraySort(SRef, s))
+		f.setComp(st, "G$"+g, store(h, r, f.TE.Zero(t)))
+	}
 	return r
 }
 
